@@ -100,12 +100,17 @@ fn collect_type_dec(
     tokens: &[Token],
     previous_token_pos: &mut Position,
 ) -> Vec<SemanticToken> {
+    // index of the name token inside the token slice of this declaration
+    let name_index = td
+        .name
+        .as_ref()
+        .map(|name| name.to_range().end - 1 - td.info.range.start);
     td.info
         .slice(tokens)
         .iter()
-        .filter_map(|token| {
-            let semantic_token = if matches!(&td.name, Some(name) if name.to_range() == token.range)
-            {
+        .enumerate()
+        .filter_map(|(index, token)| {
+            let semantic_token = if name_index == Some(index) {
                 Some(create_semantic_token(
                     token,
                     *previous_token_pos,
@@ -143,12 +148,23 @@ fn collect_proc_dec(
         local_table: super::get_local_table(pd, global_table),
         global_table: Some(global_table),
     };
+    // indexes inside the token slice of this declaration
+    let start = pd.info.range.start;
+    let name_index = pd
+        .name
+        .as_ref()
+        .map(|name| name.to_range().end - 1 - start);
+    // the name of a variable is relative to its own declaration,
+    // which in turn is relative to the procedure
+    let declaration_index = |variable: &spl_frontend::table::VariableEntry| {
+        variable.range.start + variable.name.to_range().end - 1 - start
+    };
     pd.info
         .slice(tokens)
         .iter()
-        .filter_map(|token| {
-            let semantic_token = if matches!(&pd.name, Some(name) if name.to_range() == token.range)
-            {
+        .enumerate()
+        .filter_map(|(index, token)| {
+            let semantic_token = if name_index == Some(index) {
                 Some(create_semantic_token(
                     token,
                     *previous_token_pos,
@@ -173,7 +189,7 @@ fn collect_proc_dec(
                         SemanticTokenModifier::None.into(),
                     ),
                     Entry::Variable(variable) => {
-                        let modifier = if variable.name.to_range() == token.range {
+                        let modifier = if declaration_index(variable) == index {
                             SemanticTokenModifier::Declaration
                         } else {
                             SemanticTokenModifier::None
@@ -187,7 +203,7 @@ fn collect_proc_dec(
                         )
                     }
                     Entry::Parameter(param) => {
-                        let modifier = if param.name.to_range() == token.range {
+                        let modifier = if declaration_index(param) == index {
                             SemanticTokenModifier::Declaration
                         } else {
                             SemanticTokenModifier::None
